@@ -33,14 +33,17 @@
 (*  - OOM ("out of the model"): halt = "oom" means the specification gives   *)
 (*    no verdict: arithmetic outside the small domain, symbolic bytes in     *)
 (*    arithmetic, memory beyond MemCap, instructions that are valid but not  *)
-(*    modelled (SHA3, EXTCODEHASH, GAS, CREATE2, precompiles other than      *)
-(*    identity), more than Fuel steps.                                       *)
+(*    modelled (GAS, precompiles other than identity), more than Fuel steps. *)
+(*  - KECCAK IS UNINTERPRETED AND INJECTIVE: SHA3, EXTCODEHASH and the       *)
+(*    CREATE2 address are symbolic hash bytes of a recorded byte string      *)
+(*    (KVMWords!HashW); the driver substitutes lib/crypto Keccak256.         *)
 (*  - Kardia numbering: 0x44 is GASLIMIT (there is no DIFFICULTY), 0x45 is   *)
 (*    undefined, 0xfe INVALID is simply absent from the table; CHAINID       *)
 (*    (0x46) exists only in the v2 (Galaxias) instruction set.               *)
-(*  - 256-bit MUL/DIV/MOD/EXP/ADDMOD/MULMOD beyond small operands, SHA3,     *)
-(*    precompiled cryptography and exact gas are out of reach of TLC's       *)
-(*    32-bit integers: see the manifest note of C10.                         *)
+(*  - The interpreter computes DIV/MOD/SDIV/SMOD/ADDMOD/MULMOD/EXP only on   *)
+(*    small operands (MUL is exact); their full 256-bit behaviour is checked *)
+(*    by certificate in KVMArith.tla.  Precompiled cryptography and exact    *)
+(*    gas are out of reach: see the manifest note of C10.                    *)
 (***************************************************************************)
 EXTENDS KVMWords, FiniteSets, TLC
 
@@ -61,6 +64,7 @@ GasLimitC == 30000000
 ChainIdC  == 24
 HashBase  == 176          \* GetHash(n) = 0x..00(b0+n)
 TokBase   == 1073741824   \* address ids >= TokBase are symbolic (created) addresses
+H2Base    == 1610612736   \* address ids >= H2Base: created by CREATE2, H2Base + h = low 20 bytes of hash number h
 BaseAddrs == <<224, 161, 162, 163>>   \* accounts that may execute CREATE first (origin, A, B, C)
 
 (***************************************************************************)
@@ -114,7 +118,7 @@ Pushes(op) == CASE op \in {STOP, CALLDATACOPY, CODECOPY, EXTCODECOPY, RETURNDATA
 \* operation.writes
 Writes(op) == op \in {SSTORE, CREATE, CREATE2, SELFDESTRUCT} \/ IsLog(op)
 \* valid but not modelled: after the stack and write-protection checks the verdict is "oom"
-Unmodelled(op) == op \in {SHA3, EXTCODEHASH, GAS, CREATE2}
+Unmodelled(op) == op = GAS
 
 (***************************************************************************)
 (* World state: a function from address ids to accounts.  An address id is   *)
@@ -141,9 +145,12 @@ TotalBal(w) == LET RECURSIVE S(_)
 
 \* the account a word designates (common.Address(w.Bytes20())), or -1 if the specification cannot tell
 AddrOf(w) == IF IsTok20(w) THEN TokBase + TokIdx(w)
+             ELSE IF IsHash20(w) THEN H2Base + HashIdx20(w)
              ELSE IF (\A i \in 13..28 : w[i] = 0) /\ w[29] < 64 /\ w[30] < 256 /\ w[31] < 256 /\ w[32] < 256
                   THEN N(w) ELSE -1
-AddrW(a) == IF a >= TokBase THEN TokW(a - TokBase) ELSE W(a)
+AddrW(a) == IF a >= H2Base THEN [i \in 1..32 |-> IF i <= 12 THEN 0 ELSE HashB(a - H2Base, i)]
+            ELSE IF a >= TokBase THEN TokW(a - TokBase) ELSE W(a)
+Addr20(a) == SubSeq(AddrW(a), 13, 32)                   \* the 20 address bytes
 IsPrecompile(a) == a \in 1..8          \* PrecompiledContractsV0
 \* creation number of (creator, nonce): creators are numbered 1..4 (BaseAddrs) or 5 + t (created ones)
 CreatorIdx(c) == IF c >= TokBase THEN 5 + (c - TokBase)
@@ -156,8 +163,11 @@ NewAddr(c, nonce) == IF CreatorIdx(c) < 0 \/ nonce > 7 \/ CreatorIdx(c) > 1000 T
 (***************************************************************************)
 \* calcMemSize64 + memoryGasCost: bytes required by region (off, size);
 \*   -1 = the real machine fails for every gas limit (overflow), -2 = out of the model
+\* a concrete value >= 2^40: as a memory offset or size it exceeds the 0x1FFFFFFFE0 bound of memoryGasCost (or
+\* overflows calcMemSize64 / toWordSize), so the instruction fails whatever the gas limit is
+Big40(w) == Conc(w) /\ (w[25] # 0 \/ w[26] # 0 \/ w[27] # 0)
 Req(off, size) == IF size = Z32 THEN 0
-                  ELSE IF Huge(off) \/ Huge(size) THEN -1
+                  ELSE IF Huge(off) \/ Huge(size) \/ Big40(off) \/ Big40(size) THEN -1
                   ELSE IF SmallLe(off, MemCap) /\ SmallLe(size, MemCap) /\ N(off) + N(size) <= MemCap
                        THEN N(off) + N(size) ELSE -2
 Max(a, b) == IF a >= b THEN a ELSE b
@@ -201,6 +211,8 @@ ValidJumpdest(code, w) == IF Small(w)
 (*   ret  return data of the outermost call                                  *)
 (*   gf   some frame failed for a gas-class reason the specification knows   *)
 (*   n, hw, dp   steps, highest stack, deepest kvm.depth (for invariants)    *)
+(*   hs   the distinct byte strings hashed so far (Keccak is uninterpreted:   *)
+(*        the h-th one has the hash HashW(h)); never reverted                *)
 (*   fc, par, bad, gw  ghost: frame counter, parent id of every frame,       *)
 (*        ids of failed frames, journal of SSTORE/LOG writes                 *)
 (*        <<frame id, ro, kind, account, key, value>>                        *)
@@ -213,7 +225,7 @@ RootFrame == [kind |-> "root", self |-> Origin, caddr |-> Origin, val |-> 0, cod
               st |-> <<>>, mem |-> <<>>, inp |-> <<>>, rd |-> <<>>, ro |-> FALSE,
               sw |-> <<>>, sl |-> <<>>, out |-> <<0, 0>>, id |-> 0]
 InitMachine(w0) == [fr |-> <<RootFrame>>, w |-> w0, lg |-> <<>>, halt |-> "", ret |-> <<>>, gf |-> FALSE,
-                    n |-> 0, hw |-> 0, dp |-> 0, fc |-> 0, par |-> <<>>, bad |-> {}, gw |-> <<>>]
+                    n |-> 0, hw |-> 0, dp |-> 0, hs |-> <<>>, fc |-> 0, par |-> <<>>, bad |-> {}, gw |-> <<>>]
 
 Top(m) == m.fr[Len(m.fr)]
 SetTop(m, f) == [m EXCEPT !.fr[Len(m.fr)] = f]
@@ -309,7 +321,12 @@ DoCall(m, op, toW, vw, args, out) ==
 (* DoCreate: kvm.Create -> create().  The creator's nonce is incremented     *)
 (* BEFORE the snapshot, so it survives a failed creation.                    *)
 (***************************************************************************)
-DoCreate(m, vw, init) ==
+\* Intern: the number of byte string d in the list of hashed strings (appended when new)
+HashNo(hs, d) == IF \E k \in 1..Len(hs) : hs[k] = d THEN CHOOSE k \in 1..Len(hs) : hs[k] = d ELSE Len(hs) + 1
+HashAdd(hs, d) == IF \E k \in 1..Len(hs) : hs[k] = d THEN hs ELSE Append(hs, d)
+
+\* create() with the address a already derived (a < 0: the specification cannot name it)
+DoCreateAt(m, vw, init, a) ==
   LET p == Top(m)
       v == ValOf(vw)
       failedW(w1) == ReturnTo([m EXCEPT !.w = w1], TRUE, "fail", <<>>, <<0, 0>>, Z32)
@@ -317,16 +334,24 @@ DoCreate(m, vw, init) ==
   IF Depth(m) > DepthLimit THEN failedW(m.w)
   ELSE IF v = -2 THEN Oom(m)
   ELSE IF v = -1 \/ v > Acct(m.w, p.self).bal THEN failedW(m.w)
+  ELSE IF a < 0 THEN Oom(m)
   ELSE LET nonce == Acct(m.w, p.self).nonce
-           a == NewAddr(p.self, nonce)
-       IN IF a < 0 THEN Oom(m)
-          ELSE LET w1 == [Touch(m.w, p.self) EXCEPT ![p.self].nonce = nonce + 1]
-               IN IF Acct(w1, a).nonce # 0 \/ Acct(w1, a).code # <<>> THEN failedW(w1)    \* address collision
-                  ELSE LET w2 == [CreateAcct(w1, a) EXCEPT ![a].nonce = 1]
-                           w3 == Transfer(w2, p.self, a, v)
-                       IN IF init = <<>>                                    \* Run returns at once: empty code
-                          THEN ReturnTo([m EXCEPT !.w = w3], TRUE, "ok", <<>>, <<0, 0>>, AddrW(a))
-                          ELSE Enter([m EXCEPT !.w = w3], "create", a, p.self, v, init, <<>>, p.ro, w1, <<0, 0>>)
+           w1 == [Touch(m.w, p.self) EXCEPT ![p.self].nonce = nonce + 1]
+       IN IF Acct(w1, a).nonce # 0 \/ Acct(w1, a).code # <<>> THEN failedW(w1)    \* ErrContractAddressCollision
+          ELSE LET w2 == [CreateAcct(w1, a) EXCEPT ![a].nonce = 1]
+                   w3 == Transfer(w2, p.self, a, v)
+               IN IF init = <<>>                                    \* Run returns at once: empty code
+                  THEN ReturnTo([m EXCEPT !.w = w3], TRUE, "ok", <<>>, <<0, 0>>, AddrW(a))
+                  ELSE Enter([m EXCEPT !.w = w3], "create", a, p.self, v, init, <<>>, p.ro, w1, <<0, 0>>)
+\* CREATE: address = hash of (creator, nonce)
+DoCreate(m, vw, init) == LET p == Top(m) IN DoCreateAt(m, vw, init, NewAddr(p.self, Acct(m.w, p.self).nonce))
+\* CREATE2: address = low 20 bytes of keccak(0xff ++ creator ++ salt ++ keccak(init code))  (crypto.CreateAddress2)
+DoCreate2(m, vw, init, saltW) ==
+  LET p == Top(m)
+      hs1 == HashAdd(m.hs, init)
+      pre == <<255>> \o Addr20(p.self) \o saltW \o HashW(HashNo(hs1, init))
+      hs2 == HashAdd(hs1, pre)
+  IN DoCreateAt([m EXCEPT !.hs = hs2], vw, init, H2Base + HashNo(hs2, pre))
 
 (***************************************************************************)
 (* Instruction helpers.  f is the running frame; Adv = "pc++".               *)
@@ -385,6 +410,12 @@ Exec(m, f, op) ==
     [] op = SHL -> Res(m, f, 2, ShlW(x, y))
     [] op = SHR -> Res(m, f, 2, ShrW(x, y))
     [] op = SAR -> Res(m, f, 2, SarW(x, y))
+    [] op = SHA3 ->     \* offset x, size y: the hashed string is the memory slice, zero-extended by the expansion
+         LET go(n) == LET mem1 == Expand(f.mem, n)
+                          d == MemGet(mem1, IF y = Z32 THEN 0 ELSE N(x), IF y = Z32 THEN 0 ELSE N(y))
+                      IN Adv([m EXCEPT !.hs = HashAdd(m.hs, d)],
+                             [f EXCEPT !.mem = mem1, !.st = Append(Drop(s, 2), HashW(HashNo(HashAdd(m.hs, d), d)))])
+         IN MemThen(m, Req(x, y), go)
     \* ---- environment
     [] op = ADDRESS -> PushW(m, f, AddrW(f.self))
     [] op = BALANCE -> IF AddrOf(x) < 0 THEN Oom(m) ELSE Res(m, f, 1, W(Acct(m.w, AddrOf(x)).bal))
@@ -401,6 +432,11 @@ Exec(m, f, op) ==
     [] op = EXTCODESIZE -> IF AddrOf(x) < 0 THEN Oom(m) ELSE Res(m, f, 1, W(Len(Acct(m.w, AddrOf(x)).code)))
     [] op = EXTCODECOPY -> IF AddrOf(x) < 0 THEN Oom(m)
                            ELSE CopyOp(m, f, 4, y, z, Peek(s, 3), Acct(m.w, AddrOf(x)).code)
+    [] op = EXTCODEHASH ->      \* 0 for an empty (or absent) account, else the hash of its code
+         IF AddrOf(x) < 0 THEN Oom(m)
+         ELSE LET ac == Acct(m.w, AddrOf(x)) IN
+              IF ac.nonce = 0 /\ ac.bal = 0 /\ ac.code = <<>> THEN Res(m, f, 1, Z32)
+              ELSE Res([m EXCEPT !.hs = HashAdd(m.hs, ac.code)], f, 1, HashW(HashNo(HashAdd(m.hs, ac.code), ac.code)))
     [] op = RETURNDATASIZE -> PushW(m, f, W(Len(f.rd)))
     [] op = RETURNDATACOPY ->
          \* memory is expanded first; then: offset not uint64, or offset + length beyond the buffer -> error
@@ -493,6 +529,12 @@ Exec(m, f, op) ==
          LET go(n) == LET mem1 == Expand(f.mem, n)
                           init == MemGet(mem1, IF z = Z32 THEN 0 ELSE N(y), IF z = Z32 THEN 0 ELSE N(z))
                       IN DoCreate(SetTop(m, [f EXCEPT !.st = Drop(s, 3), !.mem = mem1]), x, init)
+         IN MemThen(m, Req(y, z), go)
+    [] op = CREATE2 ->
+         \* endowment x, offset y, size z, salt
+         LET go(n) == LET mem1 == Expand(f.mem, n)
+                          init == MemGet(mem1, IF z = Z32 THEN 0 ELSE N(y), IF z = Z32 THEN 0 ELSE N(z))
+                      IN DoCreate2(SetTop(m, [f EXCEPT !.st = Drop(s, 4), !.mem = mem1]), x, init, Peek(s, 3))
          IN MemThen(m, Req(y, z), go)
     [] OTHER -> Oom(m)
 
